@@ -939,3 +939,131 @@ Proof.
   destruct (uae_trk st u v force a st' Hd Hf Ht Hb Cta H) as (Hd' & Hf' & Wt & _).
   now apply track_global.
 Qed.
+
+Corollary user_delete_edge_frame st u v top a st' :
+  W_dict st -> W_forest st -> W_trk st -> trk_bounded st -> trk_act (ft st) = true ->
+  user_delete_edge st u v top = Ok a st' ->
+  forall m, ~ wconn st u m -> trk st' m = trk st m.
+Proof. intros Hd Hf Ht Hb Cta H. apply (user_delete_edge_trk st u v top a st' Hd Hf Ht Hb Cta H). Qed.
+
+Corollary user_add_edge_frame st u v force top a st' :
+  W_dict st -> W_forest st -> W_trk st -> trk_bounded st -> trk_act (ft st) = true ->
+  user_add_edge st u v force top = Ok a st' ->
+  forall m, ~ wconn st u m -> ~ wconn st v m -> trk st' m = trk st m.
+Proof. intros Hd Hf Ht Hb Cta H. apply (user_add_edge_trk st u v force top a st' Hd Hf Ht Hb Cta H). Qed.
+
+(* ================================================================== *)
+(* 9. a concrete state satisfying all hypotheses (non-vacuity)          *)
+(* ================================================================== *)
+From FT Require Import Model.EditExec.
+
+Definition ex_feats : feats :=
+  {| reg_node := [KTime; KPos; KTrack; KLin]; reg_edge := []; pos_keys := [KPos]; rp_all := []; rp_act := [];
+     iou_avail := false; iou_act := false; trk_act := true; lin_act := true |}.
+(* 1 (t=0) divides into 2 and 3 (t=1); 2 continues to 4 (t=2).  Tracks: 1 = {1}, 2 = {2,4}, 3 = {3}. *)
+Definition ex4 : state :=
+  mk_state [(1, [(KTime, VZ 0); (KPos, VTok 0); (KTrack, VZ 1); (KLin, VZ 1)]);
+            (2, [(KTime, VZ 1); (KPos, VTok 1); (KTrack, VZ 2); (KLin, VZ 1)]);
+            (3, [(KTime, VZ 1); (KPos, VTok 2); (KTrack, VZ 3); (KLin, VZ 1)]);
+            (4, [(KTime, VZ 2); (KPos, VTok 3); (KTrack, VZ 2); (KLin, VZ 1)])]
+           [(1, 2, []); (1, 3, []); (2, 4, [])] None ex_feats
+           [(1, [1]); (2, [2; 4]); (3, [3])] [(1, [1; 2; 3; 4])] 3 1 5.
+
+Lemma succ_cases st (P : list Z -> Prop) :
+  P [] -> (forall u, In u (keys (succs (g st))) -> P (successors st u)) -> forall u, P (successors st u).
+Proof.
+  intros H0 H u. destruct (in_dec Z.eq_dec u (keys (succs (g st)))) as [Hi|Hi]; [now apply H|].
+  apply lookup_None_keys in Hi. unfold successors, adj, getd. rewrite Hi. exact H0.
+Qed.
+
+Lemma attrs_cases st (P : attrs -> Prop) :
+  P [] -> (forall n, is_node st n -> P (node_attrs st n)) -> forall n, P (node_attrs st n).
+Proof.
+  intros H0 H n. destruct (in_dec Z.eq_dec n (node_ids st)) as [Hi|Hi]; [now apply H|].
+  apply lookup_None_keys in Hi. unfold node_attrs, getd. rewrite Hi. exact H0.
+Qed.
+
+Lemma ex4_nodes n : is_node ex4 n <-> n = 1 \/ n = 2 \/ n = 3 \/ n = 4.
+Proof. unfold is_node. cbn. intuition. Qed.
+
+Lemma ex4_edges u v : edge ex4 u v <-> (u, v) = (1, 2) \/ (u, v) = (1, 3) \/ (u, v) = (2, 4).
+Proof.
+  split.
+  - revert u. apply (succ_cases ex4 (fun l => _ -> _)).
+  Abort.
+
+Lemma ex4_edges u v : edge ex4 u v -> (u, v) = (1, 2) \/ (u, v) = (1, 3) \/ (u, v) = (2, 4).
+Proof.
+  rewrite edge_successors. revert u. 
+  assert (H : forall u, forall l, l = successors ex4 u -> In v l -> (u, v) = (1, 2) \/ (u, v) = (1, 3) \/ (u, v) = (2, 4)).
+  { intros u. pattern (successors ex4 u). revert u. 
+    assert (forall u, In u (keys (succs (g ex4))) -> forall l, l = successors ex4 u -> In v l -> (u, v) = (1, 2) \/ (u, v) = (1, 3) \/ (u, v) = (2, 4)) as Hk.
+    { intros u Hu l ->. cbn in Hu. destruct Hu as [<-|[<-|[<-|[<-|[]]]]]; vm_compute; intuition congruence. }
+    intros u. destruct (in_dec Z.eq_dec u (keys (succs (g ex4)))) as [Hi|Hi]; [exact (Hk u Hi)|].
+    apply lookup_None_keys in Hi. unfold successors, adj, getd. rewrite Hi. intros l -> []. }
+  intros u. now apply (H u _ eq_refl).
+Qed.
+
+Lemma ex4_W_dict : W_dict ex4.
+Proof.
+  constructor.
+  - cbn. repeat constructor; cbn; intuition discriminate.
+  - vm_compute. repeat constructor; cbn; intuition discriminate.
+  - intros n. rewrite haskey_keys. unfold is_node. change (keys (succs (g ex4))) with (node_ids ex4). tauto.
+  - apply succ_cases; [constructor|]. intros u Hu. cbn in Hu.
+    destruct Hu as [<-|[<-|[<-|[<-|[]]]]]; vm_compute; repeat constructor; cbn; intuition discriminate.
+  - intros u v He. apply ex4_edges in He. rewrite !ex4_nodes. destruct He as [E|[E|E]]; injection E as -> ->; auto.
+  - intros n Hn. apply ex4_nodes in Hn. destruct Hn as [->|[->|[->| ->]]]; vm_compute; eauto.
+  - intros n Hn. apply ex4_nodes in Hn. destruct Hn as [->|[->|[->| ->]]]; vm_compute; eauto.
+  - intros n Hn. apply ex4_nodes in Hn. destruct Hn as [->|[->|[->| ->]]]; vm_compute; eauto.
+  - apply attrs_cases; [constructor|]. intros n Hn. apply ex4_nodes in Hn.
+    destruct Hn as [->|[->|[->| ->]]]; vm_compute; repeat constructor; cbn; intuition discriminate.
+Qed.
+
+Lemma ex4_W_forest : W_forest ex4.
+Proof.
+  constructor.
+  - intros u u' v E1 E2. apply ex4_edges in E1. apply ex4_edges in E2.
+    destruct E1 as [E1|[E1|E1]]; destruct E2 as [E2|[E2|E2]]; congruence.
+  - apply succ_cases; [cbn; lia|]. intros u Hu. cbn in Hu.
+    destruct Hu as [<-|[<-|[<-|[<-|[]]]]]; vm_compute; lia.
+  - intros u v He. apply ex4_edges in He. destruct He as [E|[E|E]]; injection E as -> ->; vm_compute; reflexivity.
+Qed.
+
+Lemma ex4_W_trk : W_trk ex4.
+Proof.
+  assert (D1 : divides ex4 1) by (vm_compute; lia).
+  assert (H4 : ~ head ex4 4).
+  { intros [_ P]. assert (edge ex4 2 4) as E by reflexivity. specialize (P 2 E). vm_compute in P. lia. }
+  constructor.
+  - intros u v He Hnd. apply ex4_edges in He. destruct He as [E|[E|E]]; injection E as -> ->; try contradiction. reflexivity.
+  - intros a b Ha Hb E. pose proof (proj1 Ha) as Na. pose proof (proj1 Hb) as Nb. apply ex4_nodes in Na. apply ex4_nodes in Nb.
+    destruct Na as [->|[->|[->| ->]]]; destruct Nb as [->|[->|[->| ->]]]; try reflexivity; try contradiction; vm_compute in E; discriminate.
+Qed.
+
+Lemma ex4_trk_bounded : trk_bounded ex4.
+Proof.
+  intros n T Hn H. apply ex4_nodes in Hn. destruct Hn as [->|[->|[->| ->]]]; vm_compute in H; injection H as <-; vm_compute; discriminate.
+Qed.
+
+Lemma ex4_W_book : W_book ex4.
+Proof.
+  split; (split; [cbn; repeat constructor; cbn; intuition discriminate|split]).
+  - intros T l H. cbn in H.
+    destruct (Z.eqb_spec T 1) as [->|H1]; [|destruct (Z.eqb_spec T 2) as [->|H2]; [|destruct (Z.eqb_spec T 3) as [->|H3]; [|discriminate]]];
+      injection H as <-; (split; [discriminate|split; [repeat constructor; cbn; intuition discriminate|]]);
+      intros n; rewrite ex4_nodes; cbn [In]; split.
+    + intros [<-|[]]; vm_compute; auto.
+    + intros [[->|[->|[->| ->]]] H]; vm_compute in H; try discriminate; auto.
+    + intros [<-|[<-|[]]]; vm_compute; auto 6.
+    + intros [[->|[->|[->| ->]]] H]; vm_compute in H; try discriminate; auto.
+    + intros [<-|[]]; vm_compute; auto 6.
+    + intros [[->|[->|[->| ->]]] H]; vm_compute in H; try discriminate; auto.
+  - intros n T Hi H. apply ex4_nodes in Hi. destruct Hi as [->|[->|[->| ->]]]; vm_compute in H; injection H as <-; split; (reflexivity || discriminate).
+  - intros T l H. cbn in H. destruct (Z.eqb_spec T 1) as [->|H1]; [|discriminate].
+    injection H as <-. split; [discriminate|split; [repeat constructor; cbn; intuition discriminate|]].
+    intros n. rewrite ex4_nodes. cbn [In]. split.
+    + intros [<-|[<-|[<-|[<-|[]]]]]; vm_compute; auto 6.
+    + intros [[->|[->|[->| ->]]] H]; auto.
+  - intros n T Hi H. apply ex4_nodes in Hi. destruct Hi as [->|[->|[->| ->]]]; vm_compute in H; injection H as <-; split; (reflexivity || discriminate).
+Qed.
